@@ -21,6 +21,9 @@ type w5Op struct {
 	Ms   int64  `json:"ms,omitempty"`
 	From int    `json:"from,omitempty"` // attacker: index of the viewer whose secret is tried
 	How  string `json:"how,omitempty"`  // attacker: otherip, otherpath, xff, none, garbage, random, wrongcdn, cdn, cookieonly
+	// publisher session: at this instant of the session (0 = never) one frame larger than the
+	// configured maximum segment size is written, which makes the muxer instance fail
+	BigAtMs int64 `json:"big_at_ms,omitempty"`
 }
 
 type w5Actor struct {
@@ -40,6 +43,8 @@ type w5Body struct {
 	CDNSecret   string    `json:"cdn_secret,omitempty"`
 	AlwaysRemux bool      `json:"always_remux,omitempty"`
 	SegmentMs   int64     `json:"segment_ms"`
+	// hlsSegmentMaxSize in KiB (0 = the default of 50 MiB)
+	SegmentMaxKB int64 `json:"segment_max_kb,omitempty"`
 	Actors      []w5Actor `json:"actors"`
 	TailMs      int64     `json:"tail_ms"`
 }
@@ -87,9 +92,15 @@ func w5Gen(rng *rand.Rand, tier string) (*w5Body, simrt.Sched) {
 	pick := func(l ...string) string { return l[rng.Intn(len(l))] }
 	b := &w5Body{Variant: pick("mpegts", "fmp4"), SegmentMs: 1000, TailMs: 3000}
 	if rng.Intn(2) == 0 {
-		b.CDNSecret = "cdn-secret-1"
+		b.CDNSecret = "Cdn-Secret-1x"
 	}
 	b.AlwaysRemux = rng.Intn(4) == 0
+	// one run in five: a small segment size limit and a publisher that exceeds it once
+	crashy := rng.Intn(5) == 0
+	if crashy {
+		b.SegmentMaxKB = 64
+		b.AlwaysRemux = rng.Intn(2) == 0
+	}
 	// publishers: cam1 always, cam2 mostly; they may leave and come back
 	for i, path := range []string{"cam1", "cam2"} {
 		if i == 1 && rng.Intn(4) == 0 {
@@ -97,6 +108,10 @@ func w5Gen(rng *rand.Rand, tier string) (*w5Body, simrt.Sched) {
 		}
 		a := w5Actor{Kind: "pub", Path: path, User: "pub", Pass: "pubpw", IP: "127.0.0.1", StartMs: int64(rng.Intn(3)) * 100}
 		a.Ops = append(a.Ops, w5Op{Op: "session", Ms: int64(6000 + rng.Intn(6000))})
+		if crashy && rng.Intn(2) == 0 {
+			a.Ops[0].BigAtMs = int64(2000 + rng.Intn(6000))
+			a.Ops[0].Ms += 12000 // the instance is created again 10 s after it failed
+		}
 		if rng.Intn(3) == 0 {
 			a.Ops = append(a.Ops, w5Op{Op: "sleep", Ms: int64(500 + rng.Intn(3000))}, w5Op{Op: "session", Ms: int64(3000 + rng.Intn(4000))})
 		}
@@ -111,6 +126,10 @@ func w5Gen(rng *rand.Rand, tier string) (*w5Body, simrt.Sched) {
 		a := w5Actor{Kind: "viewer", Path: pick("cam1", "cam1", "cam2"), User: c[0], Pass: c[1], IP: ips[rng.Intn(len(ips))],
 			Cookies: rng.Intn(2) == 0, Bearer: rng.Intn(4) == 0, StartMs: int64(1000 + rng.Intn(4000))}
 		a.Ops = append(a.Ops, w5Op{Op: "play", N: int64(2 + rng.Intn(6)), Ms: []int64{200, 500, 1000, 2500}[rng.Intn(4)]})
+		if crashy && rng.Intn(2) == 0 {
+			// keeps polling across the failure of the muxer instance and its re-creation
+			a.Ops[0].N, a.Ops[0].Ms = int64(6+rng.Intn(8)), 2500
+		}
 		if rng.Intn(3) == 0 {
 			// a pause longer than the session inactivity limit, then again
 			a.Ops = append(a.Ops, w5Op{Op: "sleep", Ms: []int64{5000, 29000, 31000, 45000}[rng.Intn(4)]}, w5Op{Op: "play", N: 2, Ms: 500})
